@@ -228,6 +228,9 @@ func pkgKey(sourceType string, u *url.URL) string {
 // FetchSourcePackage implements sourcebundle.PackageFetcher.
 func (h *Harness) FetchSourcePackage(ctx context.Context, sourceType string, u *url.URL, targetDir string) (sourcebundle.FetchSourcePackageResponse, error) {
 	key := pkgKey(sourceType, u)
+	// the URL is the fetcher's to use: like a fetcher that strips the arguments meant for itself,
+	// this one edits it in place once it has read it
+	u.RawQuery, u.Fragment, u.Path = "", "edited-by-the-fetcher", u.Path+"/edited"
 	h.log("fetch", key, "")
 	if h.fire("fetch") {
 		return sourcebundle.FetchSourcePackageResponse{}, fmt.Errorf("injected fetch failure for %s", key)
